@@ -106,9 +106,11 @@ func loadModInfo(mods []ModSpec) ([]*modInfo, error) {
 	return out, nil
 }
 
-func (mi *modInfo) dirRel() string { return "mod/extract/" + mi.spec.Path + "@" + mi.spec.Version }
+// Paths below the cache use the escaped spelling of the version (v0.0.1-RC.1 -> v0.0.1-!r!c.1);
+// module paths cannot contain upper-case letters (module.CheckPath), so only versions need it.
+func (mi *modInfo) dirRel() string { return "mod/extract/" + mi.spec.Path + "@" + mi.spec.EscVersion() }
 func (mi *modInfo) dlRel(suffix string) string {
-	return "mod/download/" + mi.spec.Path + "/@v/" + mi.spec.Version + "." + suffix
+	return "mod/download/" + mi.spec.Path + "/@v/" + mi.spec.EscVersion() + "." + suffix
 }
 
 // ---------------------------------------------------------------- snapshot --
@@ -143,7 +145,7 @@ func takeSnapshot(cache string, mi *modInfo) snapshot {
 	ents, _ := os.ReadDir(filepath.Dir(filepath.Join(cache, mi.dlRel("zip"))))
 	for _, e := range ents {
 		m := tmpRe.FindStringSubmatch(e.Name())
-		if m == nil || m[1] != mi.spec.Version {
+		if m == nil || m[1] != mi.spec.EscVersion() {
 			continue
 		}
 		n, _ := strconv.Atoi(m[3])
@@ -363,7 +365,7 @@ func (pj *projector) event(i int, ev Event) {
 	default:
 		// temp files and renames
 		m := tmpNameRe.FindStringSubmatch(ev.A)
-		if m == nil || !strings.HasPrefix(ev.A, "mod/download/"+mi.spec.Path+"/@v/"+mi.spec.Version+".") {
+		if m == nil || !strings.HasPrefix(ev.A, "mod/download/"+mi.spec.Path+"/@v/"+mi.spec.EscVersion()+".") {
 			pj.ignored++
 			return
 		}
@@ -647,7 +649,7 @@ func genConcurrent(id string, rng *common.Rng, withCrash bool) History {
 	var mods []ModSpec
 	base := rng.Intn(3)
 	for i := 0; i < nm; i++ {
-		mods = append(mods, shape(base+i, []string{"v0.0.1", "v0.2.0", "v1.3.0"}[rng.Intn(3)]))
+		mods = append(mods, shape(base+i, []string{"v0.0.1", "v0.2.0-RC.1", "v1.3.0", "v0.4.0-Beta.2"}[rng.Intn(4)]))
 	}
 	h := History{ID: id, Kind: "concurrent", Mods: mods}
 	if withCrash {
@@ -748,7 +750,7 @@ func orchMain(args []string) int {
 			shapes = []int{int(seed % 3), int((seed + 1) % 3), int((seed + 2) % 3)}
 		}
 		for si, sh := range shapes {
-			mods := []ModSpec{shape(sh, "v0.0.1")}
+			mods := []ModSpec{shape(sh, []string{"v0.0.1-RC.1", "v0.0.1", "v0.3.0-Alpha"}[si%3])}
 			// probe: number of crash points of a clean fetch
 			probe := runHistory(self, work, History{ID: fmt.Sprintf("probe%d", sh), Kind: "clean", Mods: mods, Stages: []Stage{cleanStage(seed, 0), cleanStage(seed+1, 0)}})
 			if probe.Err != "" || len(probe.Effects) == 0 {
